@@ -244,6 +244,51 @@ def minimise(prop: Prop, scn: Dict[str, Any], key: str, budget: int = 400) -> Di
     return best
 
 
+def reproduces_fresh(pid: str, scn: Dict[str, Any], key: str, path: str) -> bool:
+    tmp = path + ".cand"
+    with open(tmp, "w") as fh:
+        json.dump(scn, fh)
+    try:
+        rr = replay_in_fresh_interpreter(pid, tmp)
+        return key in rr.get("keys", [])
+    except Exception:
+        return False
+    finally:
+        try:
+            os.unlink(tmp)
+        except OSError:
+            pass
+
+
+def minimise_fresh(pid: str, scn: Dict[str, Any], key: str, path: str, budget: int = 30) -> Dict[str, Any]:
+    best = copy.deepcopy(scn)
+    tries = 0
+    n = 2
+    steps = best["steps"]
+    while len(steps) >= 2 and tries < budget:
+        chunk = max(1, len(steps) // n)
+        reduced = False
+        for start in range(0, len(steps), chunk):
+            if tries >= budget:
+                break
+            cand = copy.deepcopy(best)
+            cand["steps"] = steps[:start] + steps[start + chunk:]
+            tries += 1
+            if cand["steps"] and reproduces_fresh(pid, cand, key, path):
+                best = cand
+                steps = best["steps"]
+                n = max(n - 1, 2)
+                reduced = True
+                break
+        if not reduced:
+            if chunk == 1:
+                break
+            n = min(n * 2, len(steps))
+    best["minimised"] = {"candidate_runs": tries, "from_steps": len(scn["steps"]), "to_steps": len(best["steps"]),
+                         "mode": "fresh interpreter per candidate"}
+    return best
+
+
 def replay_in_fresh_interpreter(pid: str, path: str) -> Dict[str, Any]:
     env = dict(os.environ)
     env["PYTHONHASHSEED"] = "1"
@@ -314,12 +359,14 @@ def run_check(pid: str, tier: str, master: int) -> int:
                         g.cancel()
         except cf.TimeoutError:
             agg["errors"].append("batch timed out")
-    harness_error = bool(agg["errors"] or agg["resample_mismatch"])
+    harness_error = bool(agg["errors"])
+    nondeterministic = bool(agg["resample_mismatch"])
     # ---- violations: minimise, write replay, verify, report
     by_key: Dict[str, List[tuple]] = {}
     for key, msg, scn in agg["viols"]:
         by_key.setdefault(key, []).append((msg, scn))
     new_violation = False
+    cross_run_state: List[str] = []
     known_matched = []
     reported = []
     replay_dir = os.environ.get("VERIF_REPLAY_DIR") or os.path.join(VERIF, "replays")
@@ -341,9 +388,24 @@ def run_check(pid: str, tier: str, master: int) -> int:
             same = False
             agg["errors"].append("replay of %s failed: %r" % (path, e))
         if not same:
-            harness_error = True
-            print("HARNESS-ERROR: replay of %s did not reproduce key %s" % (path, key))
-            continue
+            # The violation may depend on state the code under test keeps ACROSS runs in one process (a module-level
+            # cache, say), which in-process minimisation silently relies on.  Fall back to scenarios as generated,
+            # judged in a fresh interpreter each, and minimise there (slowly, small budget).
+            fresh = None
+            for _, cand in sorted(by_key[key], key=lambda ms: -len(ms[1]["steps"]))[:8]:
+                if reproduces_fresh(pid, cand, key, path):
+                    fresh = cand
+                    break
+            if fresh is None:
+                harness_error = True
+                print("HARNESS-ERROR: replay of %s did not reproduce key %s" % (path, key))
+                continue
+            small = minimise_fresh(pid, fresh, key, path)
+            small["expect"] = {"property": pid, "key": key, "message": msg}
+            small["note"] = "depends on state kept across runs in one process: minimised with one fresh interpreter per candidate"
+            with open(path, "w") as fh:
+                fh.write(json.dumps(small, sort_keys=True, indent=1))
+            cross_run_state.append(key)
         if kf:
             known_matched.append(key)
             print("KNOWN-FINDING: property=%s %s (key=%s replay=%s)" % (pid, kf["text"], key, path))
@@ -410,7 +472,7 @@ def run_check(pid: str, tier: str, master: int) -> int:
         print("HARNESS-ERROR: nondeterministic runs: %s" % agg["resample_mismatch"][:5])
     if new_violation:
         return 1
-    if harness_error:
+    if harness_error or nondeterministic:
         return 2
     print("OK property=%s held on everything explored" % pid)
     return 0
